@@ -68,6 +68,7 @@ type Stats struct {
 }
 
 type Engine struct {
+	rescued int // primary-solver unknowns decided by the second solver
 	prog      *ssa.Program
 	ctx       *Ctx
 	solver    *Solver
@@ -629,6 +630,15 @@ func (e *Engine) fork(st *State, alts []Alt) {
 			forkMu.Unlock()
 		}
 		r, m := e.solver.CheckModel(a.cond, e.inputVars(st, a.cond))
+		if r == Unknown && e.solver2 != nil {
+			// the primary solver gave up (time-out under load): ask the second solver before
+			// declaring the branch undecided
+			e.solver2.SyncTo(st.pcList())
+			r, m = e.solver2.CheckModel(a.cond, e.inputVars(st, a.cond))
+			if r != Unknown {
+				e.rescued++
+			}
+		}
 		switch r {
 		case Sat:
 			feas = append(feas, i)
